@@ -5,9 +5,12 @@
 EXTENDS Integers, Json, TLC
 B == {0, 1}
 \* gadget: HDF5 snapshots instead of ASCII ones; big: one subgrid of 24^3 cells (the writers move data in blocks of 10 000 cells)
+\* lum0: the discrete source is there but has no luminosity (the run disables it; only with a continuous source)
 Ion == {[mode |-> "ion", diffuse |-> d, continuous |-> cs, trackers |-> tr, plot |-> pl, copy |-> cp, nthr |-> t, gadget |-> ga,
-         big |-> bg] :
-          d \in B, cs \in B, tr \in B, pl \in B, cp \in {0, 2}, t \in {1, 2, 4}, ga \in B, bg \in B}
+         big |-> bg, lum0 |-> l0] :
+          d \in B, cs \in B, tr \in B, pl \in B, cp \in {0, 2}, t \in {1, 2, 4}, ga \in B, bg \in B, l0 \in B} \
+       {c \in [mode : {"ion"}, diffuse : B, continuous : B, trackers : B, plot : B, copy : {0, 2}, nthr : {1, 2, 4}, gadget : B,
+               big : B, lum0 : B] : c.lum0 = 1 /\ c.continuous = 0}
 \* first: "first snapshot" (only with snaps = 1); maxb: "maximum number of backups" (only in restart mode)
 \* sn (rhdrad only): the only source is a supernova that goes off at once, so that later radiation steps find no luminous source
 \* aniso: 16x8x8 cells in 2x2x2 subgrids (cells per subgrid differ between the axes) instead of 8x8x8
